@@ -22,6 +22,7 @@ structure ExecRef (A B : NumSem) : Prop where
   load : ∀ fn m ea, Out.NoUB (A.loadT fn m ea) → B.loadT fn m ea = A.loadT fn m ea
   store : ∀ fn m ea v, Out.NoUB (A.storeT fn m ea v) → B.storeT fn m ea v = A.storeT fn m ea v
   grow : B.grow = A.grow
+  bulk : ∀ op m a b c, Out.NoUB (A.bulkT op m a b c) → B.bulkT op m a b c = A.bulkT op m a b c
 
 theorem exec_refine (A B : NumSem) (hab : ExecRef A B) : ∀ f,
     (∀ out σ r, execSeq A f out σ = r → r ≠ .stuck → execSeq B f out σ = r) ∧
@@ -136,6 +137,27 @@ theorem exec_refine (A B : NumSem) (hab : ExecRef A B) : ∀ f,
         | val v => rw [hab.ind _ _ _ _ (by rw [hv]; trivial), hv]; rw [hv] at h; exact h
         | trap t => rw [hab.ind _ _ _ _ (by rw [hv]; trivial), hv]; rw [hv] at h; exact h
         | oof => rw [hab.ind _ _ _ _ (by rw [hv]; trivial), hv]; rw [hv] at h; exact h
+      | memCopy d s n =>
+        simp only [execStmt, execBulk] at h ⊢
+        cases hv : A.bulkT .copy σ.store.g.mem (σ.get d).bits (σ.get s).bits (σ.get n).bits with
+        | ub k => rw [hv] at h; exact absurd h.symm hr
+        | val v => rw [hab.bulk _ _ _ _ _ (by rw [hv]; trivial), hv]; rw [hv] at h; exact h
+        | trap t => rw [hab.bulk _ _ _ _ _ (by rw [hv]; trivial), hv]; rw [hv] at h; exact h
+        | oof => rw [hab.bulk _ _ _ _ _ (by rw [hv]; trivial), hv]; rw [hv] at h; exact h
+      | memFill d v n =>
+        simp only [execStmt, execBulk] at h ⊢
+        cases hv : A.bulkT .fill σ.store.g.mem (σ.get d).bits (σ.get v).bits (σ.get n).bits with
+        | ub k => rw [hv] at h; exact absurd h.symm hr
+        | val v => rw [hab.bulk _ _ _ _ _ (by rw [hv]; trivial), hv]; rw [hv] at h; exact h
+        | trap t => rw [hab.bulk _ _ _ _ _ (by rw [hv]; trivial), hv]; rw [hv] at h; exact h
+        | oof => rw [hab.bulk _ _ _ _ _ (by rw [hv]; trivial), hv]; rw [hv] at h; exact h
+      | memInit seg d s n =>
+        simp only [execStmt, execBulk] at h ⊢
+        cases hv : A.bulkT (.init seg) σ.store.g.mem (σ.get d).bits (σ.get s).bits (σ.get n).bits with
+        | ub k => rw [hv] at h; exact absurd h.symm hr
+        | val v => rw [hab.bulk _ _ _ _ _ (by rw [hv]; trivial), hv]; rw [hv] at h; exact h
+        | trap t => rw [hab.bulk _ _ _ _ _ (by rw [hv]; trivial), hv]; rw [hv] at h; exact h
+        | oof => rw [hab.bulk _ _ _ _ _ (by rw [hv]; trivial), hv]; rw [hv] at h; exact h
       | _ => simp only [execStmt] at h ⊢; exact h
 
 /-- whole functions: a result other than `stuck` is preserved -/
